@@ -93,6 +93,8 @@ struct World {
     conns: Vec<Conn>,
     /// endpoint of every cell
     cells: Vec<usize>,
+    /// the cell each cell is fed from (None: the root)
+    parent: Vec<Option<usize>>,
     rxs: Vec<RxInfo>,
     tx: Option<watch::Sender<u64>>,
     /// cell of the sender handle (stays after the drop)
@@ -245,6 +247,7 @@ async fn run_case(mode: u128, p0: u64, ops: &[u128]) -> World {
     let mut w = World {
         conns: Vec::new(),
         cells: vec![0],
+        parent: vec![None],
         rxs: vec![RxInfo { rx: Some(rx), cell: 0, sunk: false, last: None }],
         tx: Some(tx),
         root: 0,
@@ -440,6 +443,7 @@ async fn run_case(mode: u128, p0: u64, ops: &[u128]) -> World {
                 let to = if from == k { k + 1 } else { k };
                 let new_cell = w.cells.len();
                 w.cells.push(to);
+                w.parent.push(Some(cell));
                 w.dirty = true;
                 match w.ship(from, k, Item::Rx(rx)).await {
                     Ok(Item::Rx(rrx)) => w.rxs.push(RxInfo { rx: Some(rrx), cell: new_cell, sunk, last }),
@@ -463,6 +467,9 @@ async fn run_case(mode: u128, p0: u64, ops: &[u128]) -> World {
                 let to = if from == k { k + 1 } else { k };
                 let new_cell = w.cells.len();
                 w.cells.push(to);
+                w.parent.push(None);
+                let old_root = w.root;
+                w.parent[old_root] = Some(new_cell);
                 w.root = new_cell;
                 w.dirty = true;
                 match w.ship(from, k, Item::Tx(tx)).await {
@@ -602,11 +609,21 @@ pub fn exec(inp: &[u128]) -> (Vec<u128>, Vec<u128>, String, String) {
         Ok(w) => w,
         Err(_) => return (inp, vec![95], "panic".into(), "FAIL: panic in the implementation or the harness".into()),
     };
-    let hops = {
-        // cells are created in order; the distance of a cell from the root is not tracked by the harness,
-        // the number of cells on other endpoints is what the signature reports
-        w.cells.len() - 1
-    };
+    // the longest chain of connections between the sender's cell and a live receiver
+    let hops = w
+        .rxs
+        .iter()
+        .filter(|i| i.rx.is_some())
+        .map(|i| {
+            let (mut c, mut n) = (i.cell, 0usize);
+            while let Some(p) = w.parent[c] {
+                c = p;
+                n += 1;
+            }
+            n
+        })
+        .max()
+        .unwrap_or(0);
     let count = |o: u128| {
         let mut n = 0;
         let mut k = 0;
@@ -655,15 +672,13 @@ pub fn exec(inp: &[u128]) -> (Vec<u128>, Vec<u128>, String, String) {
         "exact"
     };
     let sig = format!(
-        "{prefix}:cells{}:tx{}:rx{}:drop{}:burst{}:stall{}:racy{}:exact{}:stale{}",
+        "{prefix}:hops{}:tx{}:drop{}:burst{}:stall{}:racy{}:stale{}",
         hops.min(4),
         count(10).min(2),
-        w.rxs.len().min(5),
         if count(2) == 0 { 0 } else if drop_after_send { 2 } else { 1 },
         burst.min(3),
         (count(13) > 0) as u8,
-        w.racy.min(3),
-        w.exact.min(3),
+        w.racy.min(2),
         w.stale.min(2),
     );
     let out = if mode == 1 { vec![96] } else { w.out.clone() };
